@@ -2789,13 +2789,16 @@ class WBEMConnection:  # pylint: disable=too-many-instance-attributes
                         arg_name, type(bool_param)))
         return bool_param
 
-    def _get_rslt_params(self, result, namespace):
+    def _get_rslt_params(self, result, namespace, exp_type=None):
         """
         Common processing for pull results to separate end-of-sequence,
         enum-context, and entities in IRETURNVALUE.
 
         Returns tuple of entities in IRETURNVALUE, end_of_sequence,
         and enumeration_context)
+
+        If exp_type is not None, the entities in IRETURNVALUE must be objects
+        of that class.
         """
         rtn_objects = []
         end_of_sequence = False
@@ -2834,6 +2837,14 @@ class WBEMConnection:  # pylint: disable=too-many-instance-attributes
                 "Expected EnumerationContext output parameter because "
                 "EndOfSequence=False, but did not receive it.",
                 conn_id=self.conn_id)
+
+        for obj in rtn_objects if exp_type is not None else []:
+            if not isinstance(obj, exp_type):
+                raise CIMXMLParseError(
+                    _format("Expecting {0} object in result list, got {1} "
+                            "object", exp_type.__name__,
+                            obj.__class__.__name__),
+                    conn_id=self.conn_id)
 
         # Drop enumeration_context if eos True
         # Returns tuple of enumeration context and namespace
@@ -7078,7 +7089,7 @@ class WBEMConnection:  # pylint: disable=too-many-instance-attributes
                 has_out_params=True)
 
             result_tuple = pull_inst_result_tuple(
-                *self._get_rslt_params(result, namespace))
+                *self._get_rslt_params(result, namespace, CIMInstance))
             return result_tuple
 
         except (CIMXMLParseError, XMLParseError) as exce:
@@ -7309,7 +7320,7 @@ class WBEMConnection:  # pylint: disable=too-many-instance-attributes
                 has_out_params=True)
 
             result_tuple = pull_path_result_tuple(
-                *self._get_rslt_params(result, namespace))
+                *self._get_rslt_params(result, namespace, CIMInstanceName))
             return result_tuple
 
         except (CIMXMLParseError, XMLParseError) as exce:
@@ -7592,7 +7603,7 @@ class WBEMConnection:  # pylint: disable=too-many-instance-attributes
                 has_out_params=True)
 
             result_tuple = pull_inst_result_tuple(
-                *self._get_rslt_params(result, namespace))
+                *self._get_rslt_params(result, namespace, CIMInstance))
             return result_tuple
 
         except (CIMXMLParseError, XMLParseError) as exce:
@@ -7845,7 +7856,7 @@ class WBEMConnection:  # pylint: disable=too-many-instance-attributes
                 has_out_params=True)
 
             result_tuple = pull_path_result_tuple(
-                *self._get_rslt_params(result, namespace))
+                *self._get_rslt_params(result, namespace, CIMInstanceName))
             return result_tuple
 
         except (CIMXMLParseError, XMLParseError) as exce:
@@ -8108,7 +8119,7 @@ class WBEMConnection:  # pylint: disable=too-many-instance-attributes
                 has_out_params=True)
 
             result_tuple = pull_inst_result_tuple(
-                *self._get_rslt_params(result, namespace))
+                *self._get_rslt_params(result, namespace, CIMInstance))
             return result_tuple
 
         except (CIMXMLParseError, XMLParseError) as exce:
@@ -8336,7 +8347,7 @@ class WBEMConnection:  # pylint: disable=too-many-instance-attributes
                 has_out_params=True)
 
             result_tuple = pull_path_result_tuple(
-                *self._get_rslt_params(result, namespace))
+                *self._get_rslt_params(result, namespace, CIMInstanceName))
             return result_tuple
 
         except (CIMXMLParseError, XMLParseError) as exce:
@@ -8565,7 +8576,8 @@ class WBEMConnection:  # pylint: disable=too-many-instance-attributes
                 MaxObjectCount=MaxObjectCount,
                 has_out_params=True)
 
-            insts, eos, enum_ctxt = self._get_rslt_params(result, namespace)
+            insts, eos, enum_ctxt = self._get_rslt_params(
+                result, namespace, CIMInstance)
 
             query_result_class = _GetQueryRsltClass(result) if \
                 ReturnQueryResultClass else None
@@ -8720,7 +8732,7 @@ class WBEMConnection:  # pylint: disable=too-many-instance-attributes
                 has_out_params=True)
 
             result_tuple = pull_inst_result_tuple(
-                *self._get_rslt_params(result, namespace))
+                *self._get_rslt_params(result, namespace, CIMInstance))
             return result_tuple
 
         except (CIMXMLParseError, XMLParseError) as exce:
@@ -8865,7 +8877,7 @@ class WBEMConnection:  # pylint: disable=too-many-instance-attributes
                 has_out_params=True)
 
             result_tuple = pull_path_result_tuple(
-                *self._get_rslt_params(result, namespace))
+                *self._get_rslt_params(result, namespace, CIMInstanceName))
             return result_tuple
 
         except (CIMXMLParseError, XMLParseError) as exce:
@@ -9004,7 +9016,7 @@ class WBEMConnection:  # pylint: disable=too-many-instance-attributes
                 has_out_params=True)
 
             result_tuple = pull_inst_result_tuple(
-                *self._get_rslt_params(result, namespace))
+                *self._get_rslt_params(result, namespace, CIMInstance))
             return result_tuple
 
         except (CIMXMLParseError, XMLParseError) as exce:
